@@ -347,8 +347,9 @@ def _map_gradient_coordinates(
             paint,
             c0=affine.map_point(paint.c0),
             c1=affine.map_point(paint.c1),
-            r0=affine.map_vector((paint.r0, 0)).x,
-            r1=affine.map_vector((paint.r1, 0)).x,
+            # norm, not .x: the affine may also rotate or mirror
+            r0=affine.map_vector((paint.r0, 0)).norm(),
+            r1=affine.map_vector((paint.r1, 0)).norm(),
         )
     raise TypeError(type(paint))
 
